@@ -15,6 +15,8 @@ Violations(line) ==
   \cup R("expiry", o.signOK /\ o.expiry # e.expiry)
   \cup R("returned-descriptor", o.signOK /\ o.verifyOK /\ ~o.retDescOK)
   \cup R("user-metadata", o.signOK /\ o.verifyOK /\ ~o.metaOK)
+     \* (C01) a blob that could not be read to its end is never verified, whatever the signature covers
+  \cup R("broken-reader", o.brokenReader = "accepted")
 
 Init == l = 1
 Next == /\ l <= Len(Trace)
